@@ -11,7 +11,45 @@ import (
 	. "verifharness/common"
 )
 
+// NodeIDSet histories: input = ((op id) ...), op 0 Insert, 1 Delete, 2 Has, 3 Find
+func runIDSet(ops Sx) Sx {
+	var set fatchoy.NodeIDSet
+	obs := make([]Sx, 0, ops.Len())
+	for k := 0; k < ops.Len(); k++ {
+		op, id := ops.At(k).At(0).AsInt(), int32(ops.At(k).At(1).Int64())
+		res := int64(-1)
+		panicked, _ := Catch(func() {
+			switch op {
+			case 0:
+				set = set.Insert(id)
+			case 1:
+				set = set.Delete(id)
+			case 2:
+				if set.Has(id) {
+					res = 1
+				} else {
+					res = 0
+				}
+			case 3:
+				res = int64(set.Find(id))
+			}
+		})
+		if panicked {
+			res = -99
+		}
+		l := make([]Sx, len(set))
+		for j, v := range set {
+			l[j] = Int(int64(v))
+		}
+		obs = append(obs, List(ListOf(l), Int(res)))
+	}
+	return ListOf(obs)
+}
+
 func run(in Sx) Sx {
+	if in.Len() == 1 {
+		return runIDSet(in.At(0))
+	}
 	s, i := uint8(in.At(0).Int64()), uint16(in.At(1).Int64())
 	id := fatchoy.MakeNodeID(s, i)
 	str := id.String()
@@ -80,6 +118,40 @@ func gen(a Args, out *Out) {
 	}
 	for k := 0; k < nrand; k++ {
 		emit("random", int64(rng.Intn(256)), int64(rng.Intn(65536)))
+	}
+	// NodeIDSet histories over small and extreme id universes
+	nset := 300
+	if a.Thorough() {
+		nset = 6000
+	}
+	extremes := []int64{-2147483648, -2147483647, -1, 0, 1, 2147483646, 2147483647}
+	for h := 0; h < nset; h++ {
+		universe := rng.Range(2, 12)
+		nops := rng.Range(1, 60)
+		ops := make([]Sx, nops)
+		for k := range ops {
+			id := int64(rng.Intn(universe))
+			if h%4 == 3 {
+				id = extremes[rng.Intn(len(extremes))]
+			} else if h%4 == 2 {
+				id = int64(int32(rng.Next()))
+			}
+			var code int64
+			switch d := rng.Intn(10); {
+			case d < 4:
+				code = 0
+			case d < 7:
+				code = 1
+			case d < 9:
+				code = 2
+			default:
+				code = 3
+			}
+			ops[k] = Ints(code, id)
+			out.Count([]string{"idset:insert", "idset:delete", "idset:has", "idset:find"}[code])
+		}
+		in := List(ListOf(ops))
+		out.Case("idset", nops >= 3, in, run(in))
 	}
 	// Go-side sweep of the property itself: every service x a seed-chosen stride of
 	// instances (quick), all 2^24 pairs (thorough).
